@@ -145,6 +145,7 @@ def run(chk: Check) -> None:
     # --- packet log: real logger -> file -> real replayer
     plog = rt.PacketLog()
     expected = []
+    stamped = []
     t = dt(2023, 11, 20, 8, 32, 6, 904058)
     n_log = 3000 if thorough else 600
     for fr in frames[:n_log]:
@@ -165,6 +166,7 @@ def run(chk: Check) -> None:
         except Exception:  # noqa: BLE001
             continue
         expected.append((t, rssi, fr))
+        stamped.append((t, rssi, fr, comment))
     lines = plog.close()
     got, err = rt.replay_log_file(plog.file)
     plog.unlink()
@@ -209,6 +211,34 @@ def run(chk: Check) -> None:
                           f"log file does not give it back (line: {[ln for ln in lines if c in ln][:1]})", {"op": "log", "frame": c, "dtm": a.isoformat()})
             break
     chk.extra["log_whole_second_stamps"] = sum(1 for a, _, _ in expected if a.microsecond == 0)
+    # the log line format itself against the model (Model/LogLine.lean): what the logger wrote, and what the reader's
+    # fixed columns + fromisoformat make of every written line and of lines with one character of the stamp changed
+    by_stamp = {}
+    for ln in lines:
+        by_stamp.setdefault(ln[:26], ln)
+    for t, rssi, fr, comment in stamped:
+        want = by_stamp.get(t.isoformat(timespec="microseconds"))
+        if want is None:
+            continue   # (lost: reported above)
+        body = want.split(" # ")[0].split(" < ")[0].rstrip() if not comment else want[: 26 + 1 + len(rssi) + 1 + len(fr)]
+        D.add("log.write", [str(x) for x in (t.year, t.month, t.day, t.hour, t.minute, t.second, t.microsecond)] + [esc(rssi), esc(fr)], "ok\t" + esc(body))
+
+    def read_impl(ln: str) -> str:
+        try:
+            d = dt.fromisoformat(ln[:26])
+        except ValueError:
+            return "err\tValueError"
+        if d.tzinfo is not None:
+            return "err\tValueError"   # (not produced by 26 characters)
+        return f"ok\t{d.year},{d.month},{d.day},{d.hour},{d.minute},{d.second},{d.microsecond}\t{esc(ln[27:])}"
+
+    for ln in [x for x in lines if x.strip() and not x.startswith("#")][: 400 if not thorough else 3000]:
+        if len(ln) < 27 or not ln[:4].isdigit():
+            continue
+        D.add("log.read", [esc(ln)], read_impl(ln))
+        i = rnd.randrange(26)
+        m = ln[:i] + rnd.choice("0123456789") + ln[i + 1:] if ln[i].isdigit() else ln[:i] + rnd.choice("-T:. ,") + ln[i + 1:]
+        D.add("log.read", [esc(m)], read_impl(m))
     chk.monitor("fromtimestamp(timestamp(d)) == d", False)
     for _ in range(20000):
         d = dt(2000, 1, 1) + td(microseconds=rnd.randrange(50 * 365 * 86400 * 10**6))
